@@ -461,8 +461,8 @@ def w_faults(ck, paths):
     inp = os.path.join(d, "in.fa")
     common.write_bytes(inp, base)
     os.makedirs(os.path.join(d, "adir"))
-    unread = os.path.join(d, "unreadable.fa")
-    common.write_bytes(unread, base)
+    inp2 = os.path.join(d, "in2.fa")
+    common.write_bytes(inp2, fmt.write_fasta([("d", "ACGTACGTTTGACCAT"), ("e", "ACGTTACGTTGAC")]).encode())
     cases = [
         ("missing_input", [paths["kalign"], "-q", os.path.join(d, "nofile.fa")], False),
         ("directory_as_input", [paths["kalign"], "-q", os.path.join(d, "adir")], False),
@@ -472,16 +472,23 @@ def w_faults(ck, paths):
         ("output_dev_full_msf", [paths["kalign"], "-q", inp, "-f", "msf", "-o", "/dev/full"], False),
         ("output_dev_full_clu", [paths["kalign"], "-q", inp, "-f", "clu", "-o", "/dev/full"], False),
         ("good", [paths["kalign"], "-q", inp, "-o", os.path.join(d, "ok.fa")], True),
+        # a fault in the middle of a sequence of inputs: the files before it were read successfully
+        ("second_input_missing", [paths["kalign"], "-q", inp, os.path.join(d, "nofile.fa"), "-o", os.path.join(d, "m1.fa")], False),
+        # a directory / a read error yields no sequences from that input: success with a valid alignment of what was read is allowed
+        ("second_input_is_directory", [paths["kalign"], "-q", inp, os.path.join(d, "adir"), "-o", os.path.join(d, "m2.fa")], None),
+        ("third_input_missing_after_two_good", [paths["kalign"], "-q", inp, inp, os.path.join(d, "nofile.fa"), "-o", os.path.join(d, "m3.fa")], False),
+        ("good_two_inputs", [paths["kalign"], "-q", inp, inp2, "-o", os.path.join(d, "ok2.fa")], True),
     ]
     stlogs = {}
     if shutil.which("strace"):
         for lab, sysc, err, target in (("openat_EACCES_on_output", "openat", "EACCES", os.path.join(d, "x.fa")), ("write_ENOSPC_on_output", "write", "ENOSPC", os.path.join(d, "y.fa")),
-                                       ("openat_EACCES_on_input", "openat", "EACCES", inp), ("read_EIO_on_input", "read", "EIO", inp)):
+                                       ("openat_EACCES_on_input", "openat", "EACCES", inp), ("read_EIO_on_input", "read", "EIO", inp),
+                                       ("openat_EACCES_on_second_input", "openat", "EACCES", inp2), ("read_EIO_on_second_input", "read", "EIO", inp2)):
             lg = os.path.join(d, lab + ".strace")
             stlogs[lab] = lg
-            outp = target if target != inp else os.path.join(d, lab + ".fa")
+            outp = target if target not in (inp, inp2) else os.path.join(d, lab + ".fa")
             cases.append((lab, ["strace", "-f", "-o", lg, "-e", "trace=" + sysc, "-e", "inject=%s:error=%s" % (sysc, err), "-P", target,
-                                paths["kalign"], "-q", inp, "-o", outp], False))
+                                paths["kalign"], "-q", inp, inp2, "-o", outp], None if sysc == "read" else False))
     for label, cmd, expect_ok in cases:
         r = common.run_proc(cmd, timeout=300, cpu=120, env={"ASAN_OPTIONS": common.BASE_ENV["ASAN_OPTIONS"] + ":detect_leaks=0"} if cmd[0] == "strace" else None)
         ctx = {"class": "faults", "label": label, "cmd": cmd}
@@ -499,6 +506,14 @@ def w_faults(ck, paths):
             if inj == 0:
                 ck.note_inconclusive("strace injection %s did not fire" % label)
                 continue
+        if expect_ok is None and r.rc == 0:
+            o = cmd[len(cmd) - 1 - cmd[::-1].index("-o") + 1]
+            data = open(o, "rb").read() if os.path.exists(o) else None
+            bad = structural_check(data, [base, open(inp2, "rb").read()], "fasta") if data is not None else ("no-output", "exit 0 without an output file")
+            if bad:
+                ck.violation("exit0-invalid-alignment:%s" % bad[0], "%s: exit status 0 but %s" % (label, bad[1]), ctx)
+        elif expect_ok is None and r.rc != 0 and not err.strip():
+            ck.violation("failure-without-message:faults", "%s: exit %s without a message" % (label, r.rc), ctx)
         if expect_ok is False:
             if r.rc == 0:
                 ck.violation("exit0-output-not-written:%s" % ("dev-full" if "dev_full" in label or "ENOSPC" in label else label), "%s: exit status 0 although the run cannot have produced its output" % label, ctx)
